@@ -991,6 +991,9 @@ def source_tie(chk):
     pats = {"exponent bias shift (1075 - exponent)": (r"shift\s*=\s*(\d+)\s*-\s*t\.u\.exponent", r"let shift := (\d+) - e in"),
             "subnormal divisor 2^k": (r"Integer\(1\)\s*<<\s*(\d+)\s*\)", r"Z\.shiftl 1 (\d+)\)\) red s"),
             "hidden bit": (r"(\d+)_ui64", r"let tt := m \+ (\d+) in")}
+    body2 = src[src.find("Rational::Rational(const Integer &n, const Integer &d, int red)"):]
+    vs, vm = sorted(set(re.findall(r"if \(red == (-?\d+)\) reduce\(\)", body2[:1500]))), sorted(set(re.findall(r"if redarg =\? (-?\d+) then reduce", mod)))
+    tie["value of the red argument that triggers reduce()"] = {"source": vs, "model": vm}
     fields = dict((k, re.search(k + r"\s*:\s*(\d+)", src)) for k in ("mantissa", "exponent", "negative"))
     tie["ieee bit-field widths in the source"] = dict((k, int(v.group(1)) if v else None) for k, v in fields.items())
     want_fields = {"mantissa": 52, "exponent": 11, "negative": 1}
@@ -1002,6 +1005,10 @@ def source_tie(chk):
             chk.cov.setdefault("inconclusive", []).append("source tie: pattern for '%s' not found (source %s, model %s)" % (name, vs, vm))
         elif vs != vm:
             bad.append("%s: source %s, model %s" % (name, vs, vm))
+    if vs and vm and vs != vm:
+        bad.append("red argument: source %s, model %s" % (vs, vm))
+    elif not vs or not vm:
+        chk.cov.setdefault("inconclusive", []).append("source tie: pattern for the red argument not found (source %s, model %s)" % (vs, vm))
     if all(fields.values()) and tie["ieee bit-field widths in the source"] != want_fields:
         bad.append("bit-field widths %s, the theorem quantifies over %s" % (tie["ieee bit-field widths in the source"], want_fields))
     chk.cov["source_tie"] = tie
@@ -1011,6 +1018,46 @@ def source_tie(chk):
 
 
 # ---------------------------------------------------------------- evaluation
+def platform_tie(chk, himpl):
+    """The model hard-codes 64-bit limbs (raw value of mpz_cmpabs), binary64 = (53, emin -1074, 11 exponent bits, members below 2^1024)
+    and binary32 = (24, -149, 8, 2^128), and assumes that float/double expressions are evaluated in their own format.  The compiled
+    harness prints the platform's parameters; the model's are read from Model.v.  A platform that differs makes the raw-value
+    correspondence of those call forms meaningless (NOT a defect of the library): they are then judged by the oracle only and the
+    fact is recorded as inconclusive.  Returns the set of call-form prefixes whose correspondence is switched off."""
+    import re
+    rc, out, err, timed = _spawn([himpl, "5"], "platform 1\n", 600)
+    off = set()
+    if timed or rc != 0 or not out:
+        chk.cov.setdefault("inconclusive", []).append("platform probe gave no answer (rc=%s): platform tie not checked" % rc)
+        return off
+    plat = dict(kv.split("=", 1) for kv in out[0].split() if "=" in kv)
+    mod = open(os.path.join(vf.coq_dir(AREA), "Model.v")).read()
+    m_limb = re.findall(r"Z\.log2 \(Z\.abs x\) / (\d+) \+ 1", mod)
+    m_dbl = re.findall(r"encode (\d+) \((-\d+)\) (\d+) \(num r <\? 0\) \(rne_quot \1 \(\2\) \(trunc_bits", mod)
+    m_flt = re.findall(r"encode (\d+) \((-\d+)\) (\d+) \(num r <\? 0\) \(rne_quot \1 \(\2\) fn fd\)", mod)
+    m_lim = sorted(set(re.findall(r"2 \^ (\d+) <=\? n", mod))), sorted(set(re.findall(r"2 \^ (\d+) <=\? fn", mod)))
+    try:
+        p_dbl = (int(plat["dbl_mant"]), int(plat["dbl_min_exp"]) - int(plat["dbl_mant"]), 8 * int(plat["dbl_bytes"]) - int(plat["dbl_mant"]), int(plat["dbl_max_exp"]))
+        p_flt = (int(plat["flt_mant"]), int(plat["flt_min_exp"]) - int(plat["flt_mant"]), 8 * int(plat["flt_bytes"]) - int(plat["flt_mant"]), int(plat["flt_max_exp"]))
+        want_dbl = tuple(int(x) for x in m_dbl[0]) + (int(m_lim[0][0]),)
+        want_flt = tuple(int(x) for x in m_flt[0]) + (int(m_lim[1][0]),)
+        limb_ok = [plat["limb_bits"]] == m_limb
+        fp_ok = p_dbl == want_dbl and p_flt == want_flt and plat["flt_eval_method"] == "0" and plat["dbl_denorm"] == "1"
+    except (KeyError, IndexError, ValueError) as ex:
+        chk.cov.setdefault("inconclusive", []).append("platform tie: parameters unreadable (%s)" % ex)
+        return off
+    chk.cov["platform_tie"] = {"platform": plat, "model limb bits": m_limb, "model binary64 (p, emin, exponent bits, member limit 2^k)": want_dbl,
+                               "model binary32": want_flt, "limb width agrees": limb_ok, "floating-point formats agree": fp_ok}
+    chk.count(("platform tie", "limb width and floating-point formats"), nontrivial=True)
+    if not limb_ok:
+        off |= {"cmpall", "misc"}
+        chk.cov.setdefault("inconclusive", []).append("platform has %s-bit limbs, the model of mpz_cmpabs has %s: raw compare()/absCompare() values are judged by sign only (oracle), no correspondence" % (plat.get("limb_bits"), m_limb))
+    if not fp_ok:
+        off |= {"conv.double", "conv.float", "q.convert.double", "q.convert.float", "rt.double", "rt.float"}
+        chk.cov.setdefault("inconclusive", []).append("platform floating-point formats %s / %s (eval method %s) differ from the model's %s / %s: operator double / float are not compared" % (p_dbl, p_flt, plat.get("flt_eval_method"), want_dbl, want_flt))
+    return off
+
+
 CPU_BUDGET = 10            # CPU seconds one call of the implementation may take (the slowest legitimate case takes milliseconds)
 CPU_BUDGET_RETRY = 90      # budget of the single re-run that decides between "slow" and "does not return"
 MODEL_CPU_TOTAL = 1500     # CPU seconds the extracted-model driver may take for one chunk (RLIMIT_CPU)
@@ -1096,6 +1143,9 @@ def run_stream(cmd, lines, notes, what, impl, state):
     return res, None
 
 
+PLATFORM_OFF = set()
+
+
 def run_cases(chk, cases, himpl, drv, stats):
     notes = chk.cov.setdefault("inconclusive", [])
     ncorr = 0
@@ -1117,6 +1167,8 @@ def run_cases(chk, cases, himpl, drv, stats):
                 stats["planned_corr"] += 1
             if iout[i] is None:
                 continue
+            if c["variant"] in PLATFORM_OFF and c["variant"] != "cmpall":
+                continue                       # expectation is platform-specific (see platform_tie): recorded as inconclusive there
             got = iout[i].strip()
             stats["judged"] += 1
             bad = judge(c, got)
@@ -1127,7 +1179,7 @@ def run_cases(chk, cases, himpl, drv, stats):
                 chk.sample({"variant": c["variant"], "red": c["red"], "args": [a[:60] for a in c["iargs"]], "impl": got[:120], "spec": str(c["exp"])[:120]})
             for (site, klass, expd, why) in bad:
                 chk.fail_input(site, klass, desc, expd, got, why)
-            if mout[i] is not None and c["mop"] != "skip":
+            if mout[i] is not None and c["mop"] != "skip" and c["variant"] not in PLATFORM_OFF:
                 ncorr += 1
                 mg = mout[i].strip()
                 if mg != got and not bad:      # impl != oracle is already reported as a failing input
@@ -1260,6 +1312,8 @@ def main(tier, replay=None):
             chk.fail_input("Rational comparison operators (compile probe)", "", {"variant": "compile probe harness/c10_probe_ops.C", "red": 1, "args": [], "model_op": "-", "model_args": [], "kind": "raw", "exp": "compiles"},
                            "compiles", outp[-1500:], "the six operators on two Rationals do not compile with -pedantic-errors")
     source_tie(chk)
+    PLATFORM_OFF.clear()
+    PLATFORM_OFF.update(platform_tie(chk, himpl))
     # 3. cases
     cov = {}
     if replay:
